@@ -38,7 +38,7 @@ type WriteFact struct {
 	Elem   bool   // the store is to an element ([i]/[k]) or through a pointer below the last field
 	Kind   string // store | append | delete | external:<fn> | dynamic:<what>
 	Pos    token.Pos
-	Via    string // callee chain, innermost last
+	Via    string   // callee chain, innermost last
 	Node   ast.Node // originating statement/call (region mode)
 	Direct bool     // a store written in the analysed body itself (not via a callee)
 	// ArgRooted: the store goes through an argument/captured variable of a
